@@ -104,7 +104,7 @@ struct vf_ec_ghost {
 #define vf_pop_ck		vf_g.pop.ck
 enum { VF_POP_none, VF_POP_import_affine, VF_POP_norm, VF_POP_export_affine, VF_POP_add, VF_POP_sub, VF_POP_dbl_n,
 	VF_POP_add_mix, VF_POP_sub_mix, VF_POP_fpx_mult, VF_POP_unkpt_mult, VF_POP_unkpt_pre, VF_POP_fpx_mult_affine,
-	VF_POP_unkpt_mult_affine, VF_POP_twin_mult, VF_POP_bin_mult, VF_POP_affine_add, VF_POP_affine_sub };
+	VF_POP_unkpt_mult_affine, VF_POP_twin_mult, VF_POP_bin_mult, VF_POP_affine_add, VF_POP_affine_sub, VF_POP_inter_pre };
 /* the bn_t-level sign / verify / dh / key_gen when they are callees of the byte-string wrappers */
 #define vf_st_core		vf_g.core.st
 #define vf_n_core		vf_g.core.n
